@@ -440,6 +440,15 @@ func main() {
 		}
 		res.Evaluations++
 		res.Count("streams:" + s.Kind)
+		if s.LogLevel != "" {
+			res.Count("log-level:" + s.LogLevel)
+		}
+		if s.Headers {
+			res.Count("odd-upgrade-headers")
+		}
+		if s.Reposts > 0 {
+			res.Count("identical-rule-reposts:" + s.Kind)
+		}
 		res.CountN("bytes-posted", o.Posted)
 		res.CountN("hand-offs", len(o.Tap))
 		if s.Kind == "agg" {
